@@ -127,7 +127,7 @@ Theorem def_constant_round c v prec r :
 Proof.
   intros Hp Hc Hv Htie. unfold mpf_const_v. cbv zeta.
   assert (Hv0 : 0 < v) by (pose proof (Z.pow_pos_nonneg 2 prec ltac:(lia) ltac:(lia)); lia).
-  rewrite normalize_round; try lia; [|left; reflexivity|destruct r; cbn [bump]; lia].
+  rewrite normalize_round by first [lia | (left; reflexivity) | reflexivity | (destruct r; cbn [bump]; lia)].
   rewrite bump_sticky by assumption.
   set (wp := prec + 20) in *.
   set (theta := (c * bpow radix2 wp - IZR v)%R).
@@ -136,7 +136,7 @@ Proof.
   { unfold theta, sgn. cbn [Z.eqb]. replace (IZR v + (c * bpow radix2 wp - IZR v))%R with (c * bpow radix2 wp)%R by ring.
     rewrite Rmult_assoc, <- bpow_plus. replace (wp + - wp) with 0 by lia. simpl (bpow radix2 0). ring. }
   rewrite Ec at 1. symmetry.
-  apply RND_sticky; try lia; [left; reflexivity| |exact Hth].
+  apply RND_sticky; [lia|left; reflexivity|lia| |exact Hth].
   pose proof (bitcount_spec v Hv0) as [B1 B2].
   destruct (Z.lt_ge_cases prec (bitcount v)) as [H|H]; [lia|exfalso].
   assert (2 ^ bitcount v <= 2 ^ prec) by (apply Z.pow_le_mono_r; lia). lia.
